@@ -349,8 +349,8 @@ def r18_rec_state(ctx):
         # direction and stepping
         dirs = {(m, rv) for m, rv in p.steps}
         want_rev = sp == NONE
-        good_dir = all((m == "get_prev") == bool(rv) for m, rv in dirs) and \
-            all(bool(rv) == want_rev for m, rv in dirs) and bool(dirs)
+        good_dir = bool(dirs) and all(
+            (m == "get_prev") == want_rev for m, rv in dirs)
         rep.check(good_dir, rule, key + ":direction", it.loc(),
                   "walk is %s, stepping with %s" % (
                       "reverse from the end" if want_rev else
@@ -483,7 +483,22 @@ class _IterPlugin(RecPlugin):
             fn = U(e.func)
             for m in ("get_prev", "get_next"):
                 if fn == "%s.%s" % (self.selfn, m):
-                    self.steps.append((m, d.get("in_reverse", "?")))
+                    flag = "?"
+                    p_ = parent(e)
+                    child = e
+                    while p_ is not None and not isinstance(
+                            p_, ast.FunctionDef):
+                        if isinstance(p_, ast.If) and isinstance(
+                                p_.test, ast.Name):
+                            v = d.get(p_.test.id, "?")
+                            inbody = any(child is b or any(
+                                child is x for x in ast.walk(b))
+                                for b in p_.body)
+                            if v in (True, False):
+                                flag = v if inbody else (not v)
+                            break
+                        child, p_ = p_, parent(p_)
+                    self.steps.append((m, flag))
                     return "St"
         return super().eval(e, d)
 
